@@ -33,18 +33,18 @@ def gen_key():
         return None
 
 
-def coq_report():
+def coq_report(require='Properties.Properties_C14'):
     """from the COMPILED development: source_key, and the locations the model computes for every stock policy"""
     d = os.path.join(vlib.BUILD, 'assume'); os.makedirs(d, exist_ok=True)
     stem = 'K_C14_%d' % os.getpid()
     p = os.path.join(d, stem + '.v')
-    open(p, 'w').write('From Coq Require Import String List.\nRequire Y2.Properties.Properties_C14.\nImport Y2.Gen.GenPolicies Y2.Model.Policies.\n'
+    open(p, 'w').write('From Coq Require Import String List.\nRequire Y2.%s.\nRequire Import Y2.Gen.GenPolicies Y2.Model.Policies.\n' % require +
                        'Open Scope string_scope.\n'
                        'Goal True. idtac "@@KEY". Abort.\nEval vm_compute in source_key.\n'
                        'Goal True. idtac "@@LOCS". Abort.\n'
                        'Eval vm_compute in map (fun d => (pd_name d, map (fun l => (l_owner l, length (l_args l), l_member l)) (locs_of_policy (policy_of_decl d)))) stock_policy_decls.\n'
                        'Goal True. idtac "@@KEYED". Abort.\n'
-                       'Eval vm_compute in map (fun d => (f_name d, decl_keyed d)) facet_decls.\n'
+                       'Eval vm_compute in (List.app (map (fun d => (f_name d, decl_keyed d)) facet_decls) (List.app (map (fun d => (append "policy " (pd_name d), keyed (policy_of_decl d))) stock_policy_decls) (("basic_policy bases", keyed_bases) :: nil))).\n'
                        'Goal True. idtac "@@END". Abort.\n')
     rc, out = vlib.run(['coqc', '-Q', vlib.COQ, 'Y2', p], timeout=300, cwd=d)
     for f in os.listdir(d):
@@ -81,6 +81,12 @@ def guarded_proof_phase(ctx, want_key):
             return rep
         if gen_key() == want_key:
             if any('Properties_C14' in b or 'PoliciesProofs' in b or 'Model/Policies' in b or 'theorem C14' in b for b in ctx.broken):
+                # say WHICH translated declaration the computed obligations reject (the model alone still compiles)
+                rep = coq_report('Model.Policies')
+                if rep[0] == want_key and rep[2]:
+                    bad = sorted(k for k, v in rep[2].items() if not v)
+                    if bad:
+                        ctx.broken.insert(0, 'static objects that do not follow the policy key (keyed = false): ' + ', '.join(bad))
                 return rep
             rep = coq_report()
             if rep[0] == want_key:
